@@ -273,6 +273,40 @@ fn exec<L: LangInterpreter>(l: &L, case: &Case, stats: &mut Stats) -> RunResult 
             }
             Err(p) => return viol("O8-adaptors-agree", format!("nth/count consumer panicked: {p}"), events),
         }
+        // the same stream consumed by value through for_each: same items, same bounded look-ahead
+        let log_f = Log::new();
+        let r = guarded(|| {
+            let src = SimSource { toks, next: 0, log: &log_f, exact_size: case.exact_size };
+            log_f.in_request.set(true);
+            let it = find_numbers_iter(src, l, thr);
+            let mut got: Vec<(Occ, usize)> = vec![];
+            it.for_each(|o| got.push((Occ::from(o), log_f.pulls.get())));
+            got
+        });
+        match r {
+            Ok(got) => {
+                let items: Vec<Occ> = got.iter().map(|g| g.0.clone()).collect();
+                if items != b {
+                    return viol("O8-adaptors-agree", format!("lang={} thr={} for_each yields {} but batch has {}; stream: {}", pool.code, case.thr, fmt_occs(&items), fmt_occs(&b), fmt_toks(toks)), events);
+                }
+                if let Ok(t0) = &t0 {
+                    for (o, pulls) in &got {
+                        let bound = match t0.iter().position(|x| x.start == o.start) {
+                            Some(j) if j + 2 < t0.len() => t0[j + 2].end,
+                            _ => n,
+                        };
+                        if *pulls > bound {
+                            return viol(
+                                "O4-bounded-lookahead",
+                                format!("lang={} thr={} consumed through for_each: occurrence {} handed over after {} pulls, bound {}; stream: {}", pool.code, case.thr, fmt_occs(std::slice::from_ref(o)), pulls, bound, fmt_toks(toks)),
+                                events,
+                            );
+                        }
+                    }
+                }
+            }
+            Err(p) => return viol("O8-adaptors-agree", format!("for_each consumer panicked: {p}"), events),
+        }
     }
 
     // O5 separation hint
